@@ -235,7 +235,7 @@ func runC16Isinstance(c *Ctx, r *Rep) {
 }
 
 func runC16Pmerge(c *Ctx, r *Rep) {
-	fd := c.FuncDecl("py", "pmerge")
+	fd := c.FuncDeclX("py", "pmerge")
 	if fd == nil || fd.Body == nil {
 		r.undecided("c3|py.pmerge", token.NoPos, "anchor function not found")
 		return
@@ -255,24 +255,39 @@ func runC16Pmerge(c *Ctx, r *Rep) {
 		return
 	}
 	var inner *ast.ForStmt
+	var innerRange *ast.RangeStmt
 	ast.Inspect(outer.Body, func(n ast.Node) bool {
-		f, ok := n.(*ast.ForStmt)
-		if !ok {
+		var body *ast.BlockStmt
+		switch f := n.(type) {
+		case *ast.ForStmt:
+			body = f.Body
+		case *ast.RangeStmt:
+			body = f.Body
+		default:
 			return true
 		}
 		has := false
-		ast.Inspect(f.Body, func(m ast.Node) bool {
+		ast.Inspect(body, func(m ast.Node) bool {
 			if call, ok := m.(*ast.CallExpr); ok && exprStr(call.Fun) == "tail_contains" {
 				has = true
 			}
 			return true
 		})
-		if has && inner == nil {
-			inner = f
+		if has && inner == nil && innerRange == nil {
+			switch f := n.(type) {
+			case *ast.ForStmt:
+				inner = f
+			case *ast.RangeStmt:
+				innerRange = f
+			}
 		}
 		return true
 	})
-	if inner == nil {
+	if innerRange != nil {
+		// a range loop visits every list: nothing to compare
+		r.ok("c3|candidate checked against every tail", innerRange.Pos(), "the rejection loop ranges over %s, every list to merge", exprStr(innerRange.X))
+	}
+	if inner == nil && innerRange == nil {
 		r.undecided("c3|tail loop", outer.Pos(), "no inner loop calling tail_contains found; confirm how candidates are rejected and update the rule")
 		return
 	}
@@ -286,10 +301,15 @@ func runC16Pmerge(c *Ctx, r *Rep) {
 		return
 	}
 	oi, ol := bound(outer)
-	ii, il := bound(inner)
-	r.check(ii == "0" && il == ol && oi == "0", "c3|candidate checked against every tail", inner.Pos(),
-		"the rejection loop runs over all lists to merge (0 .. "+ol+")",
-		fmt.Sprintf("the loop that rejects a candidate found in the tail of a list runs from %s to %s, the lists to merge from %s to %s: C3 takes a candidate only if it is in the tail of NO list, including the ones before the one it heads — otherwise an inconsistent hierarchy is accepted with some order instead of TypeError", ii, il, oi, ol))
+	ii, il := "", ""
+	if inner != nil {
+		ii, il = bound(inner)
+	}
+	if inner != nil {
+		r.check(ii == "0" && il == ol && oi == "0", "c3|candidate checked against every tail", inner.Pos(),
+			"the rejection loop runs over all lists to merge (0 .. "+ol+")",
+			fmt.Sprintf("the loop that rejects a candidate found in the tail of a list runs from %s to %s, the lists to merge from %s to %s: C3 takes a candidate only if it is in the tail of NO list, including the ones before the one it heads — otherwise an inconsistent hierarchy is accepted with some order instead of TypeError", ii, il, oi, ol))
+	}
 	// the candidate is the head of the current list (remain index), and acceptance restarts the scan
 	restarts := false
 	ast.Inspect(outer.Body, func(n ast.Node) bool {
